@@ -90,6 +90,74 @@ def all_names(defs):
     return out
 
 
+def _rank(name):
+    if name[:1] == "c" and name[1:].isdigit():
+        return int(name[1:])
+    return "xyzwv".index(name) if name in "xyzwv" else 99
+
+
+def _attr_like_global(defs, rng):
+    """Attribute access whose attribute is spelled like a global name of the space: a reference
+    `n` of space S' is bound to another space T' that has a member (cells or integer reference)
+    also called `n`, and a formula of S' uses `n.n` / `n.n(...)`.  The transformer must rewrite
+    the object (self.n) and leave the attribute alone (transformer.py, visit_Attribute /
+    leave_Name).  Returns [[owner path, n, "read" | "call", user cells]] (at most one)."""
+    cells_at = {tuple(q): cs for q, cs in defs["cells"]}
+    refs_at = {tuple(q): rs for q, rs in defs["refs"]}
+    bases_at = {tuple(q): [tuple(b) for b in bs] for q, bs in defs["bases"]}
+    spaces = [tuple(q) for q in defs["sp"]]
+
+    def ancestors(q):
+        out, todo = set(), list(bases_at.get(q, []))
+        while todo:
+            b = todo.pop()
+            if b not in out:
+                out.add(b)
+                todo += bases_at.get(b, [])
+        return out
+
+    def members(q):
+        return set(cells_at[q]) | set(refs_at[q]) | {t[-1] for t in spaces if t[:-1] == q}
+    cands = []
+    for owner in spaces:
+        family = {owner} | {t for t in spaces if owner in ancestors(t)}      # owner and its subs
+        family |= set().union(*[ancestors(q) for q in family])               # and all they derive from
+        taken = set().union(*[members(q) for q in family])
+        used = set()
+        for q in family:
+            for crec in cells_at[q].values():
+                for op in defs["flib"][crec["f"]]["ops"]:
+                    if op[0] in ("call", "read", "icall"):
+                        used.update(op[1])
+        for tgt in spaces:
+            if tgt in family:
+                continue
+            for n in sorted(cells_at[tgt]):
+                if n not in taken and n not in used and n not in defs["grefs"]:
+                    users = [c for c in sorted(cells_at[owner]) if _rank(c) > _rank(n)]
+                    if users:
+                        cands.append((owner, tgt, n, "call", users))
+            for n, r in sorted(refs_at[tgt].items()):
+                if r["v"][0] == "int" and n not in taken and n not in used and n not in defs["grefs"] \
+                        and cells_at[owner]:
+                    cands.append((owner, tgt, n, "read", sorted(cells_at[owner])))
+    if not cands:
+        return []
+    owner, tgt, n, how, users = rng.choice(cands)
+    refs_at[owner][n] = {"v": ["sp", list(tgt), [], ""], "mode": rng.choice(["auto", "absolute"])}
+    user = rng.choice(users)
+    crec = cells_at[owner][user]
+    f = copy.deepcopy(defs["flib"][crec["f"]])
+    if how == "call":
+        op = ["call", [n, n], [["c", rng.choice([0, 1])] for _ in defs["sigs"][n]], "pos"]
+    else:
+        op = ["read", [n, n]]
+    f["ops"].insert(rng.randrange(1, len(f["ops"]) + 1), op)
+    defs["flib"]["Z1"] = f
+    crec["f"] = "Z1"
+    return [[list(owner), n, how, user]]
+
+
 def make_program(kind, seed, extra=()):
     """Definitions record (JSON form of MxSem's D + flib + sigs + "deco") of a seeded program in
     the export subset.  `extra` may contain "sub" / "pfrefs" to switch on features outside it."""
@@ -116,17 +184,46 @@ def make_program(kind, seed, extra=()):
         g = GenDyn(seed, p_uncached=0.3)
         defs = g.program()
     defs = copy.deepcopy(defs)
+    nested_kind, attr_like = "", []
     if kind == "dyn":
-        # the children of an instance and the nested instances see the parameters of the
-        # enclosing ItemSpaces (exporter.py:406-432, _mx_copy_params / _mx_assign_params):
-        # make a share of their formulas read them
         nf = [0]
+        inner = "q"
+        pf_rows = {tuple(q): row for row in defs["pf"] for q in [row[0]]}
+        if ("P", "Q") in pf_rows:
+            # Outer[a].Inner[b]: the parameter of the inner space has its own name (q) or THE SAME
+            # name as the outer one (p): the inner argument then shadows the outer one in
+            # Inner[b] and in its static child spaces (exporter.py:406-432: the parameters of the
+            # enclosing roots are copied first, then the own ones are assigned)
+            nested_kind = "same_name" if rng.random() < 0.5 else "distinct_names"
+            if nested_kind == "same_name":
+                inner = "p"
+                f = copy.deepcopy(defs["flib"][pf_rows[("P", "Q")][1]])
+                f["ps"] = [["p", 0, 0]]
+                defs["flib"]["Y1"] = f
+                pf_rows[("P", "Q")][1] = "Y1"
+            if rng.random() < 0.8:
+                # a static child of the inner space whose formula reads the parameters
+                d = ["P", "Q", "D"]
+                defs["sp"].append(d)
+                defs["bases"].append([d, []])
+                defs["refs"].append([d, {}])
+                defs["span"].append([d, 0])
+                ops = [["const", rng.choice([4, 6, 9])], ["read", ["p"]]]
+                if inner != "p":
+                    ops.insert(rng.choice([1, 2]), ["read", [inner]])
+                defs["flib"]["Y2"] = {"ps": [], "ops": ops, "catch": False, "onerr": 900, "style": "def"}
+                defs["cells"].append([d, {"v": {"f": "Y2", "an": 0, "cached": rng.random() < 0.7}}])
+                defs["sigs"]["v"] = []
+                nested_kind += "+child"
+        # the children of an instance and the nested instances see the parameters of the
+        # enclosing ItemSpaces (_mx_copy_params / _mx_assign_params): make a share of their
+        # formulas read them
         for path, cs in defs["cells"]:
             if path[:1] == ["P"] and len(path) == 2:
                 for cn, crec in cs.items():
                     if rng.random() < 0.6:
                         f = copy.deepcopy(defs["flib"][crec["f"]])
-                        names = [["p"]] + ([["q"]] if tuple(path) in {tuple(q) for q, _ in defs["pf"]} else [])
+                        names = [["p"]] + ([[inner]] if tuple(path) in pf_rows and inner != "p" else [])
                         for nm in names:
                             f["ops"].insert(rng.randrange(1, len(f["ops"]) + 1), ["read", nm])
                         nf[0] += 1
@@ -185,6 +282,8 @@ def make_program(kind, seed, extra=()):
             refs_at = {tuple(q): rs for q, rs in defs["refs"]}
             if "o" in refs_at[("P",)] and ("P", "C") in refs_at and rng.random() < 0.7:
                 refs_at[("P", "C")]["o"] = copy.deepcopy(refs_at[("P",)]["o"])
+    if kind in ("static", "inh") and rng.random() < 0.6:
+        attr_like = _attr_like_global(defs, rng)
     # --- restriction to the export subset (see ASSUMPTIONS in eng_export.py) ---
     for f in defs["flib"].values():
         if "pfrefs" not in extra and f.get("style") == "pf":
@@ -198,7 +297,8 @@ def make_program(kind, seed, extra=()):
             if op[0] == "call" and op[3] in ("sub", "value") and "sub" not in extra:
                 op[3] = rng.choice(["pos", "kw"])     # exported cells are plain methods
     # --- decorations ---
-    deco = {"kind": kind, "seed": seed, "pickled": [], "renamed": {}}
+    deco = {"kind": kind, "seed": seed, "pickled": [], "renamed": {}, "nested": nested_kind,
+            "attr_like_global": attr_like, "modules": ["datetime"]}
     if rng.random() < 0.5:
         names = all_names(defs)
         # A renamed name must resolve wherever a formula uses it (the oracle knows no built-ins:
@@ -281,7 +381,8 @@ def _world_class():
 
         def __init__(self, defs, variant):
             self._tmap = {(tuple(p), c): t for p, c, t in variant["tmap"]}
-            self._ctx = {"globals": sorted(all_names(defs)), "pick": variant.get("pick", 0)}
+            self._ctx = {"globals": sorted(all_names(defs)), "pick": variant.get("pick", 0),
+                         "modules": list(defs["deco"].get("modules", []))}
             self.texts = {}
             super().__init__(defs)
 
@@ -345,7 +446,8 @@ def enumerate_queries(w, rng):
     def walk(space, path, steps, depth):
         dyn = any(st[0] == "i" for st in steps)
         derived = any(c._is_derived() for c in space.cells.values()) if not dyn else False
-        klass = ("nested" if sum(1 for st in steps if st[0] == "i") > 1 else
+        klass = (("nested_child" if steps[-1][0] == "c" else "nested")
+                 if sum(1 for st in steps if st[0] == "i") > 1 else
                  "instance_child" if dyn and steps[-1][0] == "c" else
                  "instance" if dyn else "derived" if derived else "static")
         cells_of(space, path, steps, klass)
@@ -416,7 +518,13 @@ def eval_live(w, q):
 def _install_pickled(w, defs):
     """Replace the literal value of the chosen integer references by an object that export has to
     pickle (numpy.int64 is not one of the literal types; it behaves like the integer)."""
+    import importlib
     import numpy as np
+    # module-valued model-level references (not part of D: no op of the oracle's grammar reads
+    # them; the template attr_module uses them with a contribution of 0); export writes them as
+    # _mx_sys.import_module('<name>') (exporter.py:262-265)
+    for mod in defs["deco"].get("modules", []):
+        setattr(w.m, mod, importlib.import_module(mod))
     refs = {tuple(p): rs for p, rs in defs["refs"]}
     for p, n in defs["deco"]["pickled"]:
         if p:
